@@ -95,6 +95,8 @@ type Run struct {
 	// history checks such as porcupine that must not run on the fake clock.
 	Post func()
 	seq  int64
+	// lastActive is the fake time of the last scheduling step before teardown (simulated time covered).
+	lastActive time.Duration
 	repoSwitches  int
 }
 
@@ -252,6 +254,9 @@ func (r *Run) Drive() bool {
 			r.mixHash(t.At)
 			if r.keepTrace {
 				r.trace = append(r.trace, fmt.Sprintf("%6d t=%-12v %-10s %s", r.S.Steps, r.Now(), t.ID, t.At))
+			}
+			if !r.tearing {
+				r.lastActive = r.Now()
 			}
 			r.S.Release(t)
 			if r.S.Steps > r.StepBudget {
@@ -422,7 +427,7 @@ func Execute(t *testing.T, spec RunSpec) (res RunResult) {
 		res.Steps = r.S.Steps
 		res.Tasks = r.S.NTasks()
 		res.Draws = r.T.Draws
-		res.FakeNs = int64(r.Now())
+		res.FakeNs = int64(r.lastActive)
 		res.Violations = r.violations
 		res.Faults = r.Faults
 		r.Probes["lock_contended"] += r.S.LockContended
